@@ -15,7 +15,7 @@ static vc::Args A;
 enum Trig { T_TE_CL, T_MULTI_CL, T_FOLDED_CL, T_CHUNKED_10, T_BAD_CL, T_BAD_TE, H_AMBIG_HOST, H_AMBIG_PORT, H_MISSING, H_INVALID_URI, H_INVALID_HDR, R_TE_CL, R_MULTI_CL, T_COUNT };
 static const char *TN[] = {"te_and_cl", "multiple_cl", "folded_cl", "chunked_below_1_1", "unparseable_cl", "unsupported_te", "host_differs", "port_differs", "host_missing", "invalid_host_in_uri", "invalid_host_in_header", "response_te_and_cl", "response_multiple_cl"};
 
-struct Case { int trig; int pers; std::string req, res; std::vector<size_t> cuts; unsigned long long want; std::string want_name; bool chunked_body; std::string body; };
+struct Case { bool many_repeats = false; int trig; int pers; std::string req, res; std::vector<size_t> cuts; unsigned long long want; std::string want_name; bool chunked_body; std::string body; };
 
 static std::string rcase(std::string s) { for (auto &c : s) if (rcx::chance(1, 3)) c = (char)(isupper((unsigned char)c) ? tolower((unsigned char)c) : toupper((unsigned char)c)); return s; }
 static std::string ows() { int n = rcx::range(0, 2); std::string s; for (int i = 0; i < n; i++) s += rcx::coin() ? ' ' : '\t'; return s; }
@@ -40,12 +40,14 @@ static Case gen_case() {
     std::string version = "HTTP/1.1", host = "h" + std::string(1, (char)('a' + rcx::range(0, 5))) + ".example", target = "/p" + std::to_string(rcx::range(0, 99));
     std::vector<std::string> hdrs; bool add_host = true; std::string body = "abcde"; std::string wire_body = body;
     auto H = [&](const std::string &n, const std::string &v) { return rcase(n) + ":" + ows() + v + (rcx::chance(1, 4) ? ows() : ""); };
+    // the same with the value (or the part after a comma) moved to a continuation line
+    auto HF = [&](const std::string &n, const std::string &v) { if (!rcx::chance(1, 4)) return H(n, v); std::string lws = rcx::coin() ? " " : "\t"; size_t comma = v.find(','); if (comma != std::string::npos && rcx::coin()) return rcase(n) + ":" + ows() + v.substr(0, comma + 1) + eol + lws + v.substr(comma + 1); return rcase(n) + ":" + ows() + eol + lws + v; };
     auto chunk_it = [&]() { char b[16]; snprintf(b, sizeof b, rcx::coin() ? "%zx" : "%zX", body.size()); wire_body = std::string(b) + eol + body + eol + "0" + eol + eol; c.chunked_body = true; };
     switch (c.trig) {
-        case T_TE_CL: hdrs.push_back(H("Transfer-Encoding", te_value(true))); hdrs.push_back(H("Content-Length", std::to_string(rcx::range(0, 30)))); chunk_it(); c.want = HTP_REQUEST_SMUGGLING; c.want_name = "HTP_REQUEST_SMUGGLING"; break;
+        case T_TE_CL: hdrs.push_back(HF("Transfer-Encoding", te_value(true))); hdrs.push_back(H("Content-Length", std::to_string(rcx::range(0, 30)))); chunk_it(); c.want = HTP_REQUEST_SMUGGLING; c.want_name = "HTP_REQUEST_SMUGGLING"; break;
         case T_MULTI_CL: { int n = rcx::range(2, 3); bool same = rcx::coin(); for (int i = 0; i < n; i++) hdrs.push_back(H("Content-Length", std::to_string(i == 0 || same ? body.size() : body.size() + (size_t)rcx::range(1, 9)))); c.want = HTP_REQUEST_SMUGGLING; c.want_name = "HTP_REQUEST_SMUGGLING"; break; }
         case T_FOLDED_CL: hdrs.push_back(rcase("Content-Length") + ":" + (rcx::coin() ? "" : " ") + eol + (rcx::coin() ? " " : "\t") + std::to_string(body.size())); c.want = HTP_REQUEST_SMUGGLING; c.want_name = "HTP_REQUEST_SMUGGLING"; break;
-        case T_CHUNKED_10: version = rcx::coin() ? "HTTP/1.0" : "HTTP/0.9"; hdrs.push_back(H("Transfer-Encoding", te_value(true))); chunk_it(); c.want = HTP_REQUEST_SMUGGLING; c.want_name = "HTP_REQUEST_SMUGGLING"; break;
+        case T_CHUNKED_10: version = rcx::coin() ? "HTTP/1.0" : "HTTP/0.9"; hdrs.push_back(HF("Transfer-Encoding", te_value(true))); chunk_it(); c.want = HTP_REQUEST_SMUGGLING; c.want_name = "HTP_REQUEST_SMUGGLING"; break;
         case T_BAD_CL: { static const std::vector<std::string> bad = {"abc", "", "x y", "99999999999999999999999", "18446744073709551616", "--", ","}; hdrs.push_back(H("Content-Length", rcx::pick(bad))); c.want = HTP_REQUEST_INVALID; c.want_name = "HTP_REQUEST_INVALID"; break; }
         case T_BAD_TE: hdrs.push_back(H("Transfer-Encoding", te_value(false))); if (rcx::coin()) hdrs.push_back(H("Content-Length", std::to_string(body.size()))); c.want = HTP_REQUEST_INVALID; c.want_name = "HTP_REQUEST_INVALID"; break;
         case H_AMBIG_HOST: target = "http://" + rcase("other.example") + target; hdrs.push_back(H("Content-Length", std::to_string(body.size()))); c.want = HTP_HOST_AMBIGUOUS; c.want_name = "HTP_HOST_AMBIGUOUS"; break;
@@ -56,7 +58,9 @@ static Case gen_case() {
         case R_TE_CL: case R_MULTI_CL: hdrs.push_back(H("Content-Length", std::to_string(body.size()))); c.want = HTP_REQUEST_SMUGGLING; c.want_name = "HTP_REQUEST_SMUGGLING(response)"; break;
     }
     if (add_host) hdrs.push_back(H("Host", host));
-    int nf = rcx::range(0, 3); for (int i = 0; i < nf; i++) hdrs.push_back(H("X-F" + std::to_string(i), "v" + std::to_string(rcx::range(0, 999))));
+    int nf = rcx::range(0, 3); for (int i = 0; i < nf; i++) hdrs.push_back(HF("X-F" + std::to_string(i), "v" + std::to_string(rcx::range(0, 999))));
+    // sometimes a field repeated beyond the library's repetition cap (64) shares the message with the trigger
+    c.many_repeats = rcx::chance(1, 10); if (c.many_repeats) { int n = rcx::range(60, 100); for (int i = 0; i < n; i++) hdrs.push_back(H("X-Rep", "r" + std::to_string(i))); }
     // permute header order (the folded C-L stays one unit)
     for (size_t i = hdrs.size(); i > 1; i--) std::swap(hdrs[i - 1], hdrs[(size_t)rcx::range(0, (int)i - 1)]);
     c.req = "POST " + target + " " + version + eol; for (auto &h : hdrs) c.req += h + eol; c.req += eol + wire_body; c.body = body;
@@ -112,7 +116,7 @@ static void campaign() {
         Case c = gen_case();
         std::string text = case_text(c); vc::set_current_case(text);
         auto r = run_case(c);
-        if (!rcx::shrinking()) { g_stats.evaluations++; g_stats.cls(std::string("trigger_") + TN[c.trig]); if (!c.cuts.empty()) { g_stats.nt(vc::fnv1a(text)); g_stats.cls("chunked_delivery"); } g_stats.sample_sparse(text, g_stats.evaluations); }
+        if (!rcx::shrinking()) { g_stats.evaluations++; g_stats.cls(std::string("trigger_") + TN[c.trig]); if (c.many_repeats) g_stats.cls("with_field_repeated_beyond_cap"); if (c.req.find(":\r\n ") != std::string::npos || c.req.find(":\r\n\t") != std::string::npos || c.req.find(",\r\n") != std::string::npos || c.req.find(":\n ") != std::string::npos) g_stats.cls("with_folded_field"); if (!c.cuts.empty()) { g_stats.nt(vc::fnv1a(text)); g_stats.cls("chunked_delivery"); } g_stats.sample_sparse(text, g_stats.evaluations); }
         if (!r.first.empty()) { std::string sig = "C11:" + r.first; if (A.is_known(sig)) { if (!rcx::shrinking()) g_stats.attributed[sig]++; return {}; } return rcx::Fail{sig, text, r.second}; }
         return {};
     });
